@@ -74,8 +74,8 @@ def check_pair(ctx, a, b, tag, defs=None):
     ctx.tally("hk_mirror_compared")
     # the run of the loop itself: union calls seen by a spy on networkx's UnionFind against the mirror model driven
     # by the schedule the implementation actually used (symbol iteration order, tie-breaks); both argument orders
-    problems += hk_trace_problems(ctx, a, b, ta, tb, sy, got["eq"], "eq")
-    problems += hk_trace_problems(ctx, b, a, tb, ta, sy, got["eq_rev"], "eq_rev")
+    trace_problems = hk_trace_problems(ctx, a, b, ta, tb, sy, got["eq"], "eq")
+    trace_problems += hk_trace_problems(ctx, b, a, tb, ta, sy, got["eq_rev"], "eq_rev")
     da, db = DFA.from_nfa(a), DFA.from_nfa(b)
     if got["eq"][0] == "ok" and (da == db) != got["eq"][1]:
         problems.append(f"== on the NFAs is {got['eq'][1]} but == on their determinisations is {da == db}")
@@ -84,6 +84,13 @@ def check_pair(ctx, a, b, tag, defs=None):
     ctx.tally("pair_" + tag)
     ctx.case((enc.tree(ta), enc.tree(tb)), enc.tree(ta) != enc.tree(tb) and not da.isempty() and not db.isempty(),
              sample={"A": repr(a), "B": repr(b), "eq": got["eq"][1]})
+    if trace_problems and not problems:
+        # same answers, different run: the mirror model no longer describes the code's loop (C09/hk_trace)
+        ctx.violation("C09/hk_trace: the union-find run of NFA.__eq__ differs from the mirror model: " + "; ".join(trace_problems),
+                      {"kind": "pair", "A": repr(a.input_parameters), "B": repr(b.input_parameters),
+                       "problems": trace_problems, "tag": tag}, confirmed=False)
+        return
+    problems += trace_problems
     if problems:
         conf = None
         if word is not None:
